@@ -76,9 +76,82 @@ def run_model(exe, cases, scratch, parts=6):
     return ok, total, mism, kinds, "\n".join(out)
 
 
+def coq_z(t):
+    t = str(t)
+    return "(%s)" % t if t.startswith("-") else t
+
+
+def coq_case(line):
+    """One harness line '<input> ; <observed>' as a term of Acme.C03.CrossCheck.xcase (None = skip)."""
+    inp, obs = line.split(" ; ", 1)
+    f, o = inp.split(), obs.split()
+    if obs.startswith("panic") or not f:
+        return None
+    if f[0] == "D":
+        kind = {"c": "KCustom", "f": "KFlag", "i": "KInteger", "d": "KDecimal"}[f[1]]
+        tag, val = o[0], o[1]
+        ov = {"flag:bool": "OFlag %s" % ("true" if val == "1" else "false"), "int:int64": "OInt %s" % coq_z(val),
+              "uint:uint64": "OUint %s" % coq_z(val), "float:float64": "OFloat %s" % coq_z(val)}.get(tag)
+        if ov is None:
+            return None
+        return "XD %s %s %s %s %s %s (%s)" % (kind, "true" if f[2] == "1" else "false", f[3], f[4], f[5], f[6], ov)
+    if f[0] == "R":
+        return "XR %s %s %s %s" % ("true" if f[2] == "1" else "false", f[3], o[0], o[1])
+    if f[0] == "S":
+        return "XS %s %s" % (coq_z(f[1]), coq_z(o[0]))
+    if f[0] == "V":
+        return "XV %s %s" % (coq_z(f[1]), coq_z(o[0]))
+    if f[0] == "X":
+        return "XX %s %s %s %s" % (f[1], f[2], o[0], o[1])
+    if f[0] == "N":
+        cnt = int(f[2])
+        vs = ["(%s, %s)" % (coq_z(f[3 + 2 * i]), coq_z(f[4 + 2 * i])) for i in range(cnt)]
+        return "XN [%s] %s %s" % ("; ".join(vs), coq_z(f[3 + 2 * cnt]), coq_z(o[0]))
+    if f[0] == "E":
+        ops = []
+        for t in f[1:]:
+            q = t.split(":")
+            ops.append({"A": lambda: "EAdd %s %s" % (coq_z(q[1]), coq_z(q[2])), "R": lambda: "ERemove %s" % coq_z(q[1]),
+                        "M": lambda: "ESetMin %s" % coq_z(q[1]), "U": lambda: "EUpdate %s %s" % (coq_z(q[1]), coq_z(q[2])),
+                        "C": lambda: "EClear"}[q[0]]())
+        tr = []
+        for t in o:
+            q = t.split(":")
+            tr.append("(%s, %s, %s)" % ("true" if q[0] == "1" else "false", coq_z(q[1]), coq_z(q[2])))
+        return "XE [%s] [%s]" % ("; ".join(ops), "; ".join(tr))
+    return None
+
+
+def vm_cross_check(ctx, cases_path, per_kind=90):
+    """DESIGN 3.3: a sample of this run's cases with the outputs observed on the implementation is
+    evaluated inside Coq (vm_compute); returns (n_cases, ok, log)."""
+    by = {}
+    for line in open(cases_path):
+        line = line.rstrip("\n")
+        k = line[:3] if line.startswith("D ") else line[:1]
+        by.setdefault(k, []).append(line)
+    terms = []
+    for k, ls in sorted(by.items()):
+        stepn = max(1, len(ls) // per_kind)
+        for line in ls[::stepn][:per_kind]:
+            t = coq_case(line)
+            if t:
+                terms.append(t)
+    src = os.path.join(ctx.scratch, "C03Cross.v")
+    with open(src, "w") as f:
+        f.write("From Coq Require Import ZArith List.\nFrom Acme.C03 Require Import Model CrossCheck.\n"
+                "Import ListNotations.\nLocal Open Scope Z_scope.\n"
+                "Definition cases : list xcase := [\n  " + ";\n  ".join(terms) + "].\n"
+                "Definition M := Eval vm_compute in mismatches cases.\nPrint M.\n"
+                "Definition N := Eval vm_compute in length cases.\nPrint N.\n")
+    rc, out = vlib.sh(["coqc", "-R", vlib.COQ, "Acme", "C03Cross.v"], cwd=ctx.scratch, timeout=1500)
+    ok = rc == 0 and re.search(r"M\s*=\s*\[\s*\]", out) is not None
+    return len(terms), ok, out[-1500:]
+
+
 def run(ctx):
     ctx.level = "proof"
-    status = vlib.proof_status(PID, extra_targets=["C03/Extract.v"])
+    status = vlib.proof_status(PID, extra_targets=["C03/Extract.v", "C03/CrossCheck.v"])
     ctx.proof_gate(status)
     drv = vlib.build_ocaml_driver("c03_driver", os.path.join(vlib.COQ, "extracted"),
                                   os.path.join(ctx.prop_dir, "driver", "c03_driver.ml"),
@@ -157,6 +230,13 @@ def run(ctx):
         "integer-kind decoding: theorem and oracle cover integral scale/offset with a representable result (the property's quantifier); non-integral parameters are compared with the model only (Go truncation)",
     ]
     if ctx.tier == "thorough":
+        nx, okx, xlog = vm_cross_check(ctx, out)
+        ctx.coverage["vm_compute_cross_check"] = {"cases": nx, "mismatches": 0 if okx else "see log", "ok": okx,
+                                                  "what": "sample of this run's cases with the outputs observed on the Go implementation, "
+                                                          "evaluated by vm_compute inside Coq (Acme.C03.CrossCheck.mismatches = [])"}
+        if not okx:
+            ctx.violation("c03-vm-cross-check", "the in-Coq evaluation of %d sampled cases disagrees with the outputs observed on the "
+                          "implementation (or did not run): %s" % (nx, xlog[-700:]), {"log": xlog}, found_input=False)
         okc, chk = vlib.coqchk(PID)
         ctx.coverage["coqchk"] = "ok" if okc else "FAILED"
         ctx.coverage["coqchk_tail"] = chk[-1500:]
